@@ -25,15 +25,22 @@ func init() {
 				return
 			}
 			if t := sc.Me(); t != nil {
-				if point == "in:cache-locked" {
-					// ResolveIDs looks up the two actor ids first, in a fixed
-					// order, and then walks a Go map. Only the first two
-					// lookups of an operation are pre-emptible, so that the
-					// schedule does not depend on map iteration order.
-					if t.Local >= 2 {
+				switch point {
+				case "cache:lookup":
+					// Every ID lookup of an operation passes here, including
+					// the ones answered without the lock. ResolveIDs looks up
+					// the two actor ids first, in a fixed order, and then
+					// walks a Go map: only lookups number 1 and 2 are
+					// pre-emptible (before the lock and inside it), so that
+					// the schedule does not depend on map iteration order.
+					t.Local++
+					if t.Local > 2 || !getInnerYields() {
 						return
 					}
-					t.Local++
+				case "in:cache-locked":
+					if t.Local > 2 {
+						return
+					}
 				}
 				t.Yield(point)
 			}
